@@ -361,6 +361,10 @@ def r07_2(ctx, g):
         if out_arg is None:
             raise AnalysisError("R07.2", run.where(wc), "cannot find the path the per-chromosome GFA is written to")
         if not apps:
+            # the list may be derived after the loop from another registry (`out_gfa = [g for g, _ in written]`)
+            derived = [st for st in walk_stmts(run.node.body) if isinstance(st, ast.Assign) and norm(st.targets[0]) == fl and not (isinstance(st.value, ast.List) and not st.value.elts)]
+            if derived:
+                raise AnalysisError("R07.2", run.where(derived[0]), f"the list `{fl}` the complete file is put together from is derived (`{norm(derived[0].value)[:60]}`), not filled in the chromosome loop: its contents are not traced")
             ctx.violated("R07.2", run.where(cl), f"the per-chromosome files are written but never added to `{fl}`, the list the complete file is put together from: the complete file lacks the chromosomes", key_of(run, f"concat-list-not-filled:{fl}"))
         else:
             ok_app = all(norm(a.args[0]) == norm(out_arg) for a in apps) and len(apps) == 1
